@@ -9,7 +9,7 @@ from .. import ring
 from ..adapters import circuit as ad
 
 NULLC = {"nu": -1, "anc": (), "hord": (), "ops": ()}
-DEAD = {"live": False, "nm": 0, "im": 0, "upos": (), "apos": (), "hin": (), "hout": (), "U": (), "uerr": False,
+DEAD = {"ctok": 0, "live": False, "nm": 0, "im": 0, "upos": (), "apos": (), "hin": (), "hout": (), "U": (), "uerr": False,
         "grp": False, "nadj": False, "nspec": 0}
 
 
@@ -50,6 +50,7 @@ class Recorder:
         self.numeric = numeric
         self.nslots = len(records)
         self.tokens = []
+        self.ctokens = []
         self.floatU = []
         self.events = [{"op": "init", "t": 0, "a": (), "res": "ok", "circ": tuple(records), "num": numeric,
                         "toks": self._toks()}]
@@ -67,15 +68,27 @@ class Recorder:
     def _toks(self):
         return tuple(self._tok(self.objs.get(o)) for o in range(1, self.nslots + 1))
 
+    def _ctok(self, c):
+        if c is None:
+            return 0
+        key = ad.snapshot(c).core()
+        for i, k in enumerate(self.ctokens):
+            if k == key:
+                return i + 1
+        self.ctokens.append(key)
+        return len(self.ctokens)
+
     def call(self, op, t, args, fn):
         pre = observe(self.objs.get(t), self.numeric and op == "unpack")
         pre.pop("_V", None)
+        pre["ctok"] = self._ctok(self.objs.get(t))
         try:
             fn()
             res = "ok"
         except Exception:  # noqa: BLE001
             res = "raise"
         ob = observe(self.objs.get(t), self.numeric)
+        ob["ctok"] = self._ctok(self.objs.get(t))
         self.floatU.append(ob.pop("_V", None))
         self.events.append({"op": op, "t": t, "a": tuple(args), "res": res, "obs": ob, "toks": self._toks(), "pre": pre})
         return res
